@@ -189,7 +189,13 @@ func c14Encrypter(s *c14Spec, rd io.Reader) (pkcs.PBESEncrypter, string, error) 
 		case k < 8:
 			return pkcs.NewPBKDF2Opts(c14Hashes[k], salt, iter), c14KDFName[k]
 		case k == 8:
-			return pkcs.NewSMPBKDF2Opts(salt, iter), c14KDFName[k]
+			o := pkcs.NewSMPBKDF2Opts(salt, iter)
+			// the ShangMi PBKDF2 OID combined with every PRF (its default is SM3; the option field is exported)
+			if h := c14Mod(s.salt+s.iter, len(c14Hashes)+1); h > 0 {
+				o.HMACHash = c14Hashes[h-1]
+				return o, c14KDFName[k] + "+" + c14KDFName[h-1][7:]
+			}
+			return o, c14KDFName[k]
 		}
 		n := 2 << c14Mod(s.iter, 4) // 2, 4, 8, 16
 		r := 1 + c14Mod(s.iter>>2, 2)
